@@ -80,9 +80,15 @@ def translate_quad():
             and len(first.orelse) == 1):
         raise TranslateError('to_meshtri: first statement is not the style branch')
     tnew, tx = first.body
-    if t2.src(tnew) != ('tnew = np.arange(np.max(self.t) + 1, np.max(self.t) + 1 + self.t.shape[1], '
-                        'dtype=np.int32)'):
+    # tnew = np.arange(<base>, <base> + self.t.shape[1], dtype=np.int32): where are the centre nodes numbered from?
+    v = tnew.value if isinstance(tnew, ast.Assign) and t2.src(tnew.targets[0]) == 'tnew' else None
+    if not (isinstance(v, ast.Call) and t2.src(v.func) == 'np.arange' and len(v.args) == 2
+            and [k.arg for k in v.keywords] == ['dtype'] and t2.src(v.args[1]) == t2.src(v.args[0]) + ' + self.t.shape[1]'):
         raise TranslateError('to_meshtri: tnew: ' + t2.src(tnew))
+    bases = {'self.doflocs.shape[1]': 'npts', 'self.p.shape[1]': 'npts', 'np.max(self.t) + 1': 'maxt1'}
+    if t2.src(v.args[0]) not in bases:
+        raise TranslateError('to_meshtri: first centre node number: ' + t2.src(v.args[0]))
+    base = bases[t2.src(v.args[0])]
     if not (isinstance(tx, ast.Assign) and t2.src(tx.targets[0]) == 't'):
         raise TranslateError('to_meshtri: t (style x)')
     split_x = []
@@ -122,7 +128,9 @@ def translate_quad():
     return (f'Definition gen_quad_split : mat nat := {nat_mat(split)}.\n'
             f'Definition gen_quad_split_x : mat nat := {nat_mat(split_x)}.   (* each followed by the centre node *)\n'
             f'Definition gen_quad_sub_offsets : list nat := {clist([cnat(x) for x in offs[1]])}.\n'
-            f'Definition gen_quad_sub_offsets_x : list nat := {clist([cnat(x) for x in offs[0]])}.')
+            f'Definition gen_quad_sub_offsets_x : list nat := {clist([cnat(x) for x in offs[0]])}.\n'
+            f'(* number of the first centre node of style x, given |p| and max(t) + 1 *)\n'
+            f'Definition gen_quad_x_base (npts maxt1 : nat) : nat := {base}.')
 
 
 def translate_tets():
@@ -335,6 +343,36 @@ Definition gen_oriented_t (flip : list bool) (t : mat nat) : mat nat := swap_row
 Definition gen_trace_ix (Frows : mat nat) (facets : list nat) : mat nat := take_cols 0 Frows facets.'''
 
 
+def translate_matmul():
+    """Mesh.__matmul__: the vertex offset of the j-th mesh of the list"""
+    fn = t2.find_def(t2.parse(MESH), '__matmul__', 'Mesh')
+    body = _body(fn)
+    blk = [s for s in body if isinstance(s, ast.If) and t2.src(s.test) == 'isinstance(other, list)']
+    blk = t2.only(blk, '__matmul__: list branch')
+    srcs = [t2.src(x) for x in blk.body]
+    if srcs[0] != 'p = np.hstack((self.p,) + tuple([mesh.p for mesh in other]))' or not isinstance(blk.body[-1], ast.Return):
+        raise TranslateError('__matmul__: stacking of the points: ' + srcs[0])
+    ret = blk.body[-1].value
+    if not (isinstance(ret, ast.List) and len(ret.elts) == 2 and isinstance(ret.elts[1], ast.Starred)
+            and t2.src(ret.elts[0]) == 'cls(p, self._squeeze_if(ixb[self.t]))'):
+        raise TranslateError('__matmul__: return: ' + t2.src(ret))
+    lc = ret.elts[1].value
+    if not (isinstance(lc, ast.ListComp) and t2.src(lc.generators[0].target) == '(i, m)'
+            and t2.src(lc.generators[0].iter) == 'enumerate(other)'):
+        raise TranslateError('__matmul__: comprehension: ' + t2.src(lc))
+    e = t2.src(lc.elt)
+    if e == 'type(m)(p, self._squeeze_if(ixb[m.t + offsets[i]]))':
+        if 'offsets = np.cumsum([self.p.shape[1]] + [mesh.p.shape[1] for mesh in other])' not in srcs:
+            raise TranslateError('__matmul__: offsets: ' + repr(srcs))
+        off = 'list_sum (firstn j lens)'          # offsets[j - 1] = n_0 + ... + n_{j-1} for the j-th mesh overall
+    elif e == 'type(m)(p, self._squeeze_if(ixb[m.t + self.p.shape[1]]))':
+        off = 'nth 0 lens 0'
+    else:
+        raise TranslateError('__matmul__: element: ' + e)
+    return ('(* Mesh.__matmul__: number added to the vertices of the j-th mesh (j >= 1) of [self] + other; lens = point counts *)\n'
+            f'Definition gen_matmul_offset (lens : list nat) (j : nat) : nat := {off}.')
+
+
 HEADER = '''(* GENERATED by vlib/c18_translate.py from skfem/mesh/mesh.py, mesh_quad_1.py, mesh_hex_1.py, mesh_wedge_1.py,
    refdom.py — do not edit *)
 From Coq Require Import List Arith Bool ZArith.
@@ -349,7 +387,8 @@ def translate():
     for name, fn in (('mesh_quad_1.py: to_meshtri', translate_quad), ('mesh_hex_1.py / mesh_wedge_1.py: to_meshtet, refdom', translate_tets),
                      ('mesh.py: _reix, restrict, remove_elements, remove_unused_nodes', translate_restrict),
                      ('mesh.py: _remove_duplicate_nodes, __add__; mesh_quad_1.py: boundary carry-over', translate_join),
-                     ('mesh.py: remove_duplicate_nodes, morphed, trace; mesh_simplex.py: oriented', translate_misc)):
+                     ('mesh.py: remove_duplicate_nodes, morphed, trace; mesh_simplex.py: oriented', translate_misc),
+                     ('mesh.py: __matmul__', translate_matmul)):
         try:
             parts.append(fn())
         except TranslateError as e:
